@@ -518,9 +518,11 @@ def check_case(case, rec):
         if problems:
             # a failing case that can end up in a replay file (the recorder keeps the first few per
             # signature) is executed a second time on a fresh object; the observation must repeat
-            rkey = "_reexec:" + op + ":" + ",".join(c for c, _ in problems)
-            if rec.extra.get(rkey, 0) < 8:
-                rec.extra[rkey] = rec.extra.get(rkey, 0) + 1
+            rkey = op + ":" + ",".join(c for c, _ in problems)
+            done = rec.__dict__.setdefault("_c20_reexecuted", {})
+            if done.get(rkey, 0) < 8:
+                done[rkey] = done.get(rkey, 0) + 1
+                rec.count("violations_reexecuted")
                 obj2, _ = fresh()
                 again = observe(obj2, cls, cfg)
                 if (again[0], ADDR.sub("0x", str(again[1]))) != (status, ADDR.sub("0x", str(text))):
